@@ -33,8 +33,8 @@ ASSUMPTIONS = ['rtol 1e-9 (atol 1e-12 x magnitude) between elfi outputs and the 
                'adaptation data are continuous with at least 2 distinct rows per round (zero scale is outside the domain)',
                'inside samplers the rows of a round are the batches delivered to update() during that round']
 CONFIG = {
-    'quick': {'shards': 16, 'cases': 60, 'timeout': 600, 'floor': 150},
-    'thorough': {'shards': 32, 'cases': 1500, 'timeout': 3000, 'floor': 8000},
+    'quick': {'shards': 16, 'cases': 720, 'timeout': 600, 'floor': 1800},
+    'thorough': {'shards': 32, 'cases': 7500, 'timeout': 5400, 'floor': 40000},
 }
 REQUIRED = ['dist_with_values_checks', 'dist_generate_checks', 'dist_batch_size_1', 'dist_metric_with_kwargs',
             'dist_scalar_summaries', 'dist_vector_summaries', 'adapt_add_data_calls', 'adapt_scale_checks',
